@@ -1,7 +1,7 @@
 (* Entry point of the executable model: one case (a [val]) in, one
    observation (a [val]) out.  The same function is extracted to OCaml
    (vv_eval) and re-evaluated on samples inside Coq by vm_compute. *)
-From VV Require Import Base.Bits Base.Rt Base.Val Gen.GenConsts Gen.GenLayout Gen.GenFns Spec.ValidityDec Spec.BeSpec Spec.FeSpec Spec.SessSpec Spec.ProxySpec Model.Transport Model.BeServer Model.Frontend Model.Proxy.
+From VV Require Import Base.Bits Base.Rt Base.Val Gen.GenConsts Gen.GenLayout Gen.GenFns Spec.ValidityDec Spec.BeSpec Spec.FeSpec Spec.SessSpec Spec.ProxySpec Spec.DaemonSpec Model.Transport Model.BeServer Model.Frontend Model.Proxy Model.Daemon.
 Open Scope string_scope.
 Open Scope list_scope.
 Open Scope N_scope.
@@ -406,6 +406,31 @@ Definition run_psess (args : list val) : val :=
   | _ => verror "args"
   end.
 
+(* ---- family "dmn": the daemon's control plane ----
+   args: [VL [VN nq; VN maxq; VN features; VN pfeatures; VL masks; VN kind]; VL steps]; step = VL [VS kind; nums; ...]
+   obs : VL [ VL [result; VL events] ... ] *)
+Fixpoint dmn_steps (s : dstate) (steps : list val) : list val :=
+  match steps with
+  | [] => []
+  | VL (VS kind :: nums :: _) :: rest =>
+      match val_NL nums with
+      | Some a =>
+          let o := d_step s kind a in
+          VL [do_res o; VL (do_events o)] :: dmn_steps (do_state o) rest
+      | None => [verror "step"]
+      end
+  | _ => [verror "step"]
+  end.
+Definition run_dmn (args : list val) : val :=
+  match args with
+  | [VL [VN nq; VN maxq; VN f; VN pf; masks; VN _]; VL steps] =>
+      match val_NL masks with
+      | Some ms => VL (dmn_steps (dinit (N.to_nat nq) maxq f pf ms) steps)
+      | None => verror "args"
+      end
+  | _ => verror "args"
+  end.
+
 Definition run (c : val) : val :=
   match c with
   | VL (VS fam :: args) =>
@@ -417,6 +442,8 @@ Definition run (c : val) : val :=
       else if String.eqb fam "fe" then run_fe args
       else if String.eqb fam "sess" then run_sess args
       else if String.eqb fam "tx" then run_tx args
+      else if String.eqb fam "dmn" then run_dmn args
+      else if String.eqb fam "dmn-spec" then dmn_spec args
       else if String.eqb fam "fsrv" then run_fsrv args
       else if String.eqb fam "fsrv-spec" then fsrv_spec args
       else if String.eqb fam "proxy" then run_proxy args
